@@ -101,3 +101,45 @@ def build(scratch, specs, extra_text=''):
     out.append(extra_text)
     out.append('} // verus!\nfn main() {}\n')
     return '\n'.join(out), shas
+
+
+LEXER_EXTERNAL = ['looks_like_expression', 'looks_like_date']   # regex / closures: bodies replaced by stubs, no contract (any bool)
+
+
+def build_lexer(scratch, specs, extra_text=''):
+    """lexer_v.rs: real Lexem / LexingMode / Lexer, real bodies of Lexer::new, next_lexem, is_arithmetic_op_char, is_op_char,
+    is_paren_char; looks_like_expression / looks_like_date as external stubs (signature from the source)."""
+    lexer = Source(os.path.join(scratch, 'src/lexer.rs'))
+    out = [open(os.path.join(VERIF, 'harness', 'verus_lexer_prelude.rs')).read()]
+    shas = {}
+    out.append(extract_type(lexer, 'enum', 'Lexem', keep=set()))
+    out.append(extract_type(lexer, 'enum', 'LexingMode', keep=set()))
+    # derived PartialEq of LexingMode: structural equality (trusted impl replacing the derive)
+    out.append('impl PartialEq for LexingMode {\n    #[verifier::external_body]\n'
+               '    fn eq(&self, other: &LexingMode) -> (r: bool) ensures r == (*self == *other) { unimplemented!() }\n'
+               '    #[verifier::external_body]\n'
+               '    fn ne(&self, other: &LexingMode) -> (r: bool) ensures r == (*self != *other) { unimplemented!() }\n}\n')
+    out.append(extract_type(lexer, 'struct', 'Lexer'))
+    out.append('impl Lexer {')
+    pit = lexer.item('impl', 'Lexer')
+    for m in lexer.find_all(r'\bfn\s+(\w+)\s*[<(]', (pit['open'], pit['close'])):
+        name = m.group(1)
+        depth = lexer.mask[pit['open']:m.start()].count('{') - lexer.mask[pit['open']:m.start()].count('}')
+        if depth != 1:
+            continue
+        sp = specs.get('Lexer::' + name)
+        if sp is None:
+            sp = dict(attrs=['#[verifier::exec_allows_no_decreases_clause]'])      # helper introduced by a refactoring: no information
+        t, h = splice_fn(lexer, name, 'Lexer', sp)
+        out.append(t); shas['Lexer::' + name + ('' if ('Lexer::' + name) in specs else ' (uncontracted helper)')] = h
+    out.append('}')
+    t, h = splice_fn(lexer, 'is_paren_char', None, specs.get('is_paren_char'))
+    out.append(t); shas['lexer::is_paren_char'] = h
+    for f in LEXER_EXTERNAL:
+        it = lexer.fn(f)
+        sig = lexer.text[it['sig_start']:it['open']].rstrip()
+        out.append('#[verifier::external_body]\n' + sig + ' { unimplemented!() }')
+        shas['lexer::' + f + ' (external stub: any bool)'] = sha(lexer.text_of(it))
+    out.append(extra_text)
+    out.append('} // verus!\nfn main() {}\n')
+    return '\n'.join(out), shas
